@@ -312,11 +312,17 @@ pub struct Journal {
 
 impl Journal {
     pub fn new(limits: Limits) -> Self {
+        Self::new_at(limits, 0)
+    }
+
+    /// A journal whose first chunk starts at global offset `start` (what a purge
+    /// of everything before it leaves behind).
+    pub fn new_at(limits: Limits, start: u64) -> Self {
         let head = MRec::State(MState::default());
         let len = enc::encode(&head).len() as u64;
         Journal {
             chunks: vec![MChunk {
-                start: 0,
+                start,
                 recs: vec![head],
                 lens: vec![len],
                 closing_last: None,
